@@ -11,6 +11,8 @@ claimed = {
          "Scope-tree shape (children non-nil, ordered by start line) is a precondition assumed for the tree handed in; that the analysis declares locals in the right scope/order (DESIGN.md C05 (D)), global fall-back tables and member/require resolution are not covered. Termination of the recursion assumes a finite tree.", "5.C05"),
  "C14": ("Completion of local names: GetCompleteVar is proved, at the call that offers a name, to offer only a declaration that starts at or before the cursor, the last such declaration of its scope, and never to overwrite a name an inner scope already offered (loop invariant over the reverse scan, any list length); the cursor -> innermost scope step (FindMinScope) is the C05 contract.",
          "Completeness over the whole scope chain ('every visible local is offered') is argued from the map-range loop visiting every key (Go semantics) and is not a discharged obligation; prefix filter (IsCompleteNeedShow), globals, members and keywords are outside.", "5.C14"),
+ "C19": ("Outline of locals (FindAllLocalVal): every produced variable symbol's range starts exactly where the declaration starts (so it contains the declaring identifier; the loop that extends the range to the last member may only move the end), plain variables carry the declaration's own range, and a scope that declares nothing still descends into its nested blocks (ghost call-site counter over the map-built work list, with map-size facts).",
+         "Covers the local-symbol builder only; the global builder (results/file_result.go, repaired by the same fix), transferSymbolVec, the workspace-symbol matcher and 'every declaration is listed' in general are not under contract. The descent obligation is proved for the case of a scope without own locals.", "5.C19"),
  "C09": ("The three places where results gathered in map-iteration / goroutine-completion order are reduced to one answer are proved to use a strict total order: JudgeShouldInsertGlobalInfo is proved equal (loop invariant, all list lengths) to 'new beats every recorded definition of another file' for the lexicographic rank (function level, scope level, line, file), and the two sort.Interface Less methods (require candidates, workspace symbols) equal to lexicographic orders ending in a unique key; totality+antisymmetry and transitivity of each order are proved as lemmas. With a total order the surviving/first element is the unique minimum for every arrival order.",
          "No scheduling semantics: worker pools, GOMAXPROCS and directory listing order are outside; sort.Sort is assumed to return a permutation sorted w.r.t. Less; the final step (unique minimum => order independence) is a paper argument; other map-order leaks are not enumerated. Strings are compared through an order embedding strord (sound for the finitely many strings of a query).", "5.C09"),
  "C10": ("Lock discipline proved for every method of LspServer: each access to the guarded server state (document cache, diagnostics maps, project, colorTime, changeConfFlag) happens with requestMutex held; helpers that touch the state are only called with it held (call-graph fixpoint, checked at each call site); no handler re-acquires the mutex (self-deadlock); the mutex state at every exit equals the state at entry. Whole-handler mutual exclusion gives atomicity, hence serialisability in lock-acquisition order.",
